@@ -24,6 +24,7 @@ pub struct SchedState {
     pub switches_in_build: u64,
     pub steps: u64,
     pub deadlock: bool,
+    pub deadlock_reason: &'static str,
     /// voluntary in-build switch points still allowed in this run (bounds the cost of runs on large inputs)
     pub in_build_budget: u64,
     /// bumped whenever the baton holder reaches the scheduler: the stall detector's heartbeat
@@ -53,6 +54,9 @@ pub struct Sched {
     main_cv: Condvar,
     /// called (with the scheduler lock held) whenever the baton had to be taken from a holder asleep on a lock
     pub on_lock_handover: Option<fn()>,
+    /// is this client currently executing code under test (as opposed to harness code, whose own mutexes it
+    /// may briefly sleep on)? Only then can a sleeping holder be waiting for a lock of the code under test.
+    pub in_code_under_test: Option<fn(usize) -> bool>,
 }
 
 impl Sched {
@@ -94,6 +98,7 @@ impl Sched {
                 switches_in_build: 0,
                 steps: 0,
                 deadlock: false,
+                deadlock_reason: "",
                 in_build_budget: 3000,
                 progress: 0,
                 lock_handovers: 0,
@@ -106,6 +111,7 @@ impl Sched {
             cvs: (0..n).map(|_| Condvar::new()).collect(),
             main_cv: Condvar::new(),
             on_lock_handover: None,
+            in_code_under_test: None,
         }
     }
 
@@ -236,45 +242,36 @@ impl Sched {
                 continue;
             }
             if let Some(holder) = st.current {
-                if st.holder_acked && Self::thread_sleeps(st.tids[holder]) {
+                let in_lib = |h: usize| self.in_code_under_test.map(|f| f(h)).unwrap_or(true);
+                if st.holder_acked && in_lib(holder) && Self::thread_sleeps(st.tids[holder]) {
                     // confirm over a few more samples: a sleeping holder stays asleep
                     let tid = st.tids[holder];
                     drop(st);
                     let mut asleep = true;
-                    for _ in 0..3 {
+                    for _ in 0..4 {
                         std::thread::sleep(std::time::Duration::from_millis(1));
-                        asleep &= Self::thread_sleeps(tid);
+                        asleep &= Self::thread_sleeps(tid) && in_lib(holder);
                     }
                     st = self.state.lock().unwrap();
                     if asleep && st.current == Some(holder) && st.holder_acked && st.progress == last_progress && !st.all_done {
                         st.status[holder] = Status::BlockedOnLock;
-                        st.lock_handovers += 1;
-                        if let Some(f) = self.on_lock_handover {
-                            f();
-                        }
                         match Self::choose(&mut st, Some(holder), true) {
                             Some(n) => {
+                                st.lock_handovers += 1;
+                                if let Some(f) = self.on_lock_handover {
+                                    f();
+                                }
                                 st.switches += 1;
                                 st.current = Some(n);
                                 st.holder_acked = false;
                                 self.cvs[n].notify_one();
                             }
                             None => {
-                                st.current = None;
-                                let others_pending = st
-                                    .status
-                                    .iter()
-                                    .enumerate()
-                                    .any(|(i, x)| i != holder && *x == Status::BlockedOnLock);
-                                if !others_pending {
-                                    // everybody else is done or blocked for good: the build never returns
-                                    st.deadlock = true;
-                                    for cv in &self.cvs {
-                                        cv.notify_one();
-                                    }
-                                }
-                                // otherwise an earlier sleeper is running without the baton (it owns the lock now)
-                                // and will re-join at its next switch point, taking the baton
+                                // Nobody else can take the baton. Either an earlier sleeper owns the lock and runs
+                                // without the baton (it will re-join), or the observation was wrong, or the build
+                                // really never returns; in every case the holder simply stays the holder. A build
+                                // that never returns ends in the worker's time limit, never in a verdict from here.
+                                st.status[holder] = Status::Runnable;
                             }
                         }
                     }
@@ -353,6 +350,7 @@ impl Sched {
                     return;
                 } else {
                     st.deadlock = true;
+                    st.deadlock_reason = "hand-over: nobody runnable";
                     for cv in &self.cvs {
                         cv.notify_one();
                     }
@@ -443,5 +441,14 @@ impl Sched {
 
     pub fn lock_handovers(&self) -> u64 {
         self.state.lock().unwrap().lock_handovers
+    }
+
+    /// Diagnostic snapshot for harness-error messages.
+    pub fn describe(&self) -> String {
+        let st = self.state.lock().unwrap();
+        format!(
+            "current={:?} acked={} status={:?} mailboxes_full={:?} lock_handovers={} steps={} progress={} why={}",
+            st.current, st.holder_acked, st.status, st.mailbox_full, st.lock_handovers, st.steps, st.progress, st.deadlock_reason
+        )
     }
 }
